@@ -592,6 +592,144 @@ fn script_acks(rng: &mut Rng, _tier: Tier, ex: &mut dyn FnMut(&str) -> String) {
     ex("note quiescent");
 }
 
+
+// ---------------------------------------------------------------------------------------------
+// E2 huge: 70 000 tiny messages queued at once (ids run more than 65 536 ahead of a missing one)
+// ---------------------------------------------------------------------------------------------
+fn script_huge(rng: &mut Rng, _tier: Tier, ex: &mut dyn FnMut(&str) -> String) {
+    ex(&cfg_line(600_000, &default_chans(), &default_chans()));
+    ex("cli 0");
+    ex("add 100");
+    ex("setc 0");
+    let ch = rng.pick(&[1u8, 2]);
+    let total = 70_000u64;
+    ex(&format!("sendn c0 {} {} 7", ch, total));
+    let mut next = 0usize;
+    let mut first = true;
+    // 350 000 payload bytes at 600 000 per tick: everything goes out in the first flush
+    for _ in 0..3 {
+        ex("upd c0 310000");
+        ex("upd srv 310000");
+        let k = pkts_count(&ex("flush c0"));
+        for i in 0..k {
+            if first && i == 0 {
+                continue; // the very first packet (ids 0..) is lost: the oldest id stays missing
+            }
+            ex(&format!("dlv s100 c0 {}", next + i));
+        }
+        first = false;
+        next += k;
+        ex(&format!("recvn s100 {} 1000000", ch));
+        let a = pkts_count(&ex("flush s100"));
+        let _ = a;
+    }
+    // heal: acks flow, the lost packet is retransmitted
+    let mut next_s = 0usize;
+    for _ in 0..6 {
+        ex("upd c0 310000");
+        ex("upd srv 310000");
+        let k = pkts_count(&ex("flush c0"));
+        for i in 0..k {
+            ex(&format!("dlv s100 c0 {}", next + i));
+        }
+        next += k;
+        let k = pkts_count(&ex("flush s100"));
+        for i in 0..k {
+            ex(&format!("dlv c0 s100 {}", next_s + i));
+        }
+        next_s += k;
+        ex(&format!("recvn s100 {} 1000000", ch));
+    }
+    ex("stat c0");
+    ex("stat s100");
+    ex("note healed");
+}
+
+/// bulk liveness/safety: what `recvn` obtained never exceeds what `sendn` submitted, and after a
+/// heal phase with both ends connected everything submitted was obtained.
+fn oracle_bulk(ops: &[String], outs: &[String]) -> Option<OracleFail> {
+    let mut sub: HashMap<(String, String), u64> = HashMap::new();
+    let mut got: HashMap<(String, String), u64> = HashMap::new();
+    let mut status: HashMap<String, String> = HashMap::new();
+    for (i, (op, out)) in ops.iter().zip(outs.iter()).enumerate() {
+        let t: Vec<&str> = op.split(' ').collect();
+        match t[0] {
+            "sendn" if t.len() == 5 => {
+                *sub.entry((t[1].to_string(), t[2].to_string())).or_insert(0) += t[3].parse::<u64>().unwrap_or(0);
+            }
+            "recvn" if t.len() == 4 => {
+                let n: u64 = out.split(' ').nth(1).and_then(|x| x.parse().ok()).unwrap_or(0);
+                if let Some(p) = peer_of(t[1]) {
+                    let e = got.entry((p.clone(), t[2].to_string())).or_insert(0);
+                    *e += n;
+                    if *e > *sub.get(&(p, t[2].to_string())).unwrap_or(&0) {
+                        return fail(i, "bulk-more-than-submitted", format!("{} obtained more messages on channel {} than were submitted", t[1], t[2]));
+                    }
+                }
+            }
+            "stat" if t.len() == 2 => {
+                status.insert(t[1].to_string(), out.clone());
+            }
+            "note" if t.len() == 2 && t[1] == "healed" => {
+                if !status.values().all(|s| s == "connected") {
+                    continue;
+                }
+                for ((who, ch), n) in sub.iter() {
+                    let g = *got.get(&(who.clone(), ch.clone())).unwrap_or(&0);
+                    if g != *n {
+                        return fail(i, "bulk-not-delivered-after-heal", format!("channel {} from {}: {} of {} submitted messages obtained after the lossless phase", ch, who, g, n));
+                    }
+                }
+            }
+            _ => {}
+        }
+    }
+    None
+}
+
+// ---------------------------------------------------------------------------------------------
+// E2 unreliable under tight budgets: sliced unreliable messages whose size sits between the
+// remaining budget and the next multiple of 1200; lossless delivery
+// ---------------------------------------------------------------------------------------------
+fn script_unrel(rng: &mut Rng, _tier: Tier, ex: &mut dyn FnMut(&str) -> String) {
+    let u = Chan { id: 0, kind: "U", max_mem: 200_000, resend_us: 0 };
+    let r = Chan { id: 1, kind: "RO", max_mem: 200_000, resend_us: 100_000 };
+    let order = if rng.chance(1, 2) { vec![u.clone(), r.clone()] } else { vec![r.clone(), u.clone()] };
+    let budget = rng.pick(&[2500u64, 3000, 3700, 4900, 6000, 7300, 10_000]);
+    ex(&cfg_line(budget, &order, &order));
+    ex("cli 0");
+    ex("add 100");
+    ex("setc 0");
+    let ticks = rng.range(4, 10);
+    let mut next = 0usize;
+    for _ in 0..ticks {
+        for _ in 0..rng.range(1, 4) {
+            // lengths that need 2..6 slices, often just below a multiple of 1200
+            let k = rng.range(2, 6) as usize;
+            let n = match rng.below(3) {
+                0 => k * 1200 - rng.range(1, 1199) as usize,
+                1 => (k - 1) * 1200 + 1,
+                _ => k * 1200,
+            };
+            let m = rng.payload(n);
+            ex(&format!("send c0 0 {}", hex(&m)));
+            if rng.chance(1, 3) {
+                let m = rand_small(rng, 300);
+                ex(&format!("send c0 {} {}", rng.pick(&[0u8, 1]), hex(&m)));
+            }
+        }
+        ex("upd c0 101000");
+        ex("upd srv 101000");
+        let k = pkts_count(&ex("flush c0"));
+        for i in 0..k {
+            ex(&format!("dlv s100 c0 {}", next + i));
+        }
+        next += k;
+        drain(ex, "s100", 0, 1000);
+        drain(ex, "s100", 1, 1000);
+    }
+}
+
 // ---------------------------------------------------------------------------------------------
 // E3: hostile packets injected into live sessions; second healthy connection on the same server
 // ---------------------------------------------------------------------------------------------
@@ -764,7 +902,16 @@ fn script_hostile(rng: &mut Rng, tier: Tier, ex: &mut dyn FnMut(&str) -> String)
                     }
                 }
             }
-            ex(&format!("stat {}", to));
+            let st = ex(&format!("stat {}", to));
+            if st.starts_with("disconnected") {
+                // post-mortem probe: a disconnected endpoint yields nothing and emits nothing
+                let chans = if to_server { &c_ids } else { &s_ids };
+                for ch in chans.iter() {
+                    ex(&format!("recv {} {}", to, ch));
+                }
+                ex(&format!("flush {}", to));
+                ex(&format!("stat {}", to));
+            }
             if rng.chance(1, 3) {
                 ex(&format!("dump {}", to));
             }
@@ -1470,7 +1617,7 @@ pub fn profiles() -> Vec<Profile> {
     },
     Profile {
         name: "rn-hostile",
-        props: &["C06", "C09", "C11"],
+        props: &["C06", "C09", "C11", "C12"],
         cases: |t| if t == Tier::Quick { 400 } else { 8000 },
         new_world,
         script: script_hostile,
@@ -1507,6 +1654,27 @@ pub fn profiles() -> Vec<Profile> {
         nontrivial: |t| t.ops.len() > 5,
         keep: |_| 2,
         fixed: Some(sweep_acks_ops),
+    },
+    Profile {
+        name: "rn-huge",
+        props: &["C02", "C01"],
+        // one case costs minutes in the list-based model (70 000 queued messages): thorough tier only
+        cases: |t| if t == Tier::Quick { 0 } else { 1 },
+        new_world,
+        script: script_huge,
+        nontrivial: |t| t.outs.iter().any(|o| o.starts_with("msgs ") && !o.starts_with("msgs 0 ")),
+        keep: keep_cfg,
+        fixed: None,
+    },
+    Profile {
+        name: "rn-unrel",
+        props: &["C03", "C14"],
+        cases: |t| if t == Tier::Quick { 200 } else { 3000 },
+        new_world,
+        script: script_unrel,
+        nontrivial: |t| t.outs.iter().any(|o| o.starts_with("msg ")),
+        keep: keep_cfg,
+        fixed: None,
     },
     Profile {
         name: "rn-acks",
@@ -2169,9 +2337,11 @@ fn payload_bytes(p: &WPacket) -> u64 {
 /// C14: payload bytes of one flush ≤ available_bytes_per_tick.
 fn oracle_c14(ops: &[String], outs: &[String]) -> Option<OracleFail> {
     let mut budget = u64::MAX;
+    let mut cfg_full = Cfg::default();
     for (i, (op, out)) in ops.iter().zip(outs.iter()).enumerate() {
         if let Some(c) = parse_cfg(op) {
             budget = c.budget;
+            cfg_full = c;
         }
         if op.starts_with("flush ") {
             let mut sum = 0u64;
@@ -2183,6 +2353,43 @@ fn oracle_c14(ops: &[String], outs: &[String]) -> Option<OracleFail> {
             }
             if sum > budget {
                 return fail(i, "over-budget", format!("{} carried {} payload bytes in one flush, budget {}", &op[6..], sum, budget));
+            }
+            // channels are served in configuration order: packets are appended channel by channel
+            let who = &op[6..];
+            let list = if who.starts_with('c') { &cfg_full.client } else { &cfg_full.server };
+            let mut last_pos: Option<usize> = None;
+            let mut slices: HashMap<(u8, u64), (usize, std::collections::HashSet<usize>)> = HashMap::new();
+            for p in flush_packets(out) {
+                let pk = match decode(p) {
+                    Some(p) => p,
+                    None => continue,
+                };
+                let ch = match &pk {
+                    WPacket::SmallReliable { channel_id, .. } | WPacket::SmallUnreliable { channel_id, .. } => Some(*channel_id),
+                    WPacket::ReliableSlice { channel_id, .. } => Some(*channel_id),
+                    WPacket::UnreliableSlice { channel_id, slice, .. } => {
+                        let e = slices.entry((*channel_id, slice.message_id)).or_insert((slice.num_slices, Default::default()));
+                        e.1.insert(slice.slice_index);
+                        Some(*channel_id)
+                    }
+                    WPacket::Ack { .. } => None,
+                };
+                if let Some(ch) = ch {
+                    if let Some(pos) = list.iter().position(|c| c.0 == ch) {
+                        if let Some(lp) = last_pos {
+                            if pos < lp {
+                                return fail(i, "channel-order", format!("{} served channel {} (configuration position {}) after a channel configured later (position {})", who, ch, pos, lp));
+                            }
+                        }
+                        last_pos = Some(pos);
+                    }
+                }
+            }
+            // an unreliable sliced message goes out whole (all its slices in this flush) or not at all
+            for ((ch, id), (n, got)) in slices.iter() {
+                if got.len() != *n {
+                    return fail(i, "unreliable-partially-sent", format!("{} emitted {} of {} slices of unreliable message {} on channel {}", who, got.len(), n, id, ch));
+                }
             }
         }
     }
@@ -2369,7 +2576,9 @@ pub fn oracles() -> Vec<Oracle> {
     vec![
         Oracle { prop: "C01", name: "ordered-prefix", engines: &["rn-pair", "rn-multi", "rn-timing", "rn-long", "rn-acks"], check: oracle_c01 },
         Oracle { prop: "C02", name: "unordered-once", engines: &["rn-pair", "rn-multi", "rn-timing", "rn-long", "rn-acks", "rn-regress"], check: oracle_c02 },
-        Oracle { prop: "C03", name: "integrity", engines: &["rn-pair"], check: oracle_c03 },
+        Oracle { prop: "C03", name: "integrity", engines: &["rn-pair", "rn-unrel"], check: oracle_c03 },
+        Oracle { prop: "C02", name: "bulk", engines: &["rn-huge"], check: oracle_bulk },
+        Oracle { prop: "C01", name: "bulk", engines: &["rn-huge"], check: oracle_bulk },
         Oracle { prop: "C16", name: "roundtrip", engines: &["rn-wire"], check: oracle_c16 },
         Oracle { prop: "C16", name: "acks-are-the-set", engines: &["rn-sweep-acks"], check: oracle_sweep_acks },
         Oracle { prop: "C08", name: "acks-are-the-set", engines: &["rn-sweep-acks"], check: oracle_sweep_acks },
@@ -2377,7 +2586,7 @@ pub fn oracles() -> Vec<Oracle> {
         Oracle { prop: "C09", name: "accounting", engines: &["rn-pair", "rn-hostile", "rn-regress", "rn-long", "rn-timing", "rn-acks"], check: oracle_c09 },
         Oracle { prop: "C12", name: "finality-events", engines: &["rn-api", "rn-regress", "rn-hostile"], check: oracle_c12 },
         Oracle { prop: "C13", name: "packet-size", engines: &["rn-pair", "rn-regress", "rn-multi", "rn-hostile", "rn-long", "rn-timing", "rn-acks"], check: oracle_c13 },
-        Oracle { prop: "C14", name: "budget", engines: &["rn-pair", "rn-multi"], check: oracle_c14 },
+        Oracle { prop: "C14", name: "budget", engines: &["rn-pair", "rn-multi", "rn-unrel", "rn-timing"], check: oracle_c14 },
         Oracle { prop: "C15", name: "resend-timing", engines: &["rn-pair", "rn-timing"], check: oracle_c15 },
         Oracle { prop: "C15", name: "prompt-and-final", engines: &["rn-timing"], check: oracle_c15_prompt },
         Oracle { prop: "C08", name: "release-after-delivery", engines: &["rn-pair", "rn-timing", "rn-long", "rn-acks"], check: oracle_c08 },
